@@ -31,7 +31,7 @@ def slug(s):
 
 
 def write_replay(prop_id, bucket, spec, msg, tier, seed):
-    d = os.path.join(core.ROOT, "replays") if core.REPO == "/repo" else os.path.join(core.ROOT, ".work", "replays-alt")
+    d = os.path.join(core.ROOT, "replays") if core.REPO == "/repo" else os.path.join(os.environ.get("VERIF_ALT") or os.path.join(core.ROOT, ".work"), "replays-alt")
     os.makedirs(d, exist_ok=True)
     path = os.path.join(d, "%s-%s-%s.json" % (prop_id, slug(bucket), core.spec_hash(spec)))
     with open(path, "w") as f:
@@ -126,7 +126,14 @@ def main(argv=None):
 
     # 4. generator health (quick tier: the classes the property names must occur)
     health = []
+    try:
+        with open(os.path.join(os.path.dirname(os.path.abspath(__file__)), "health.json")) as f:
+            calibrated = json.load(f).get(prop.ID, {})
+    except OSError:
+        calibrated = {}
     for label, frac in getattr(prop, "MIN_FRACTIONS", {}).items():
+        # thresholds are at most a third of the smallest fraction observed over several seeds (tools/calibrate.py)
+        frac = min(frac, calibrated.get(label, frac))
         got = ctx.hist.get(label, 0) / max(1, gen_evals)
         if got < frac:
             health.append("%s: %.4f < %.4f" % (label, got, frac))
@@ -176,7 +183,7 @@ def main(argv=None):
         violations=len(violations),
     )
     # runs against a scratch copy (mutation testing) never touch the committed evidence
-    evdir = os.path.join(core.ROOT, "evidence") if core.REPO == "/repo" else os.path.join(core.ROOT, ".work", "evidence-alt")
+    evdir = os.path.join(core.ROOT, "evidence") if core.REPO == "/repo" else os.path.join(os.environ.get("VERIF_ALT") or os.path.join(core.ROOT, ".work"), "evidence-alt")
     os.makedirs(evdir, exist_ok=True)
     with open(os.path.join(evdir, prop.ID + ".json"), "w") as f:
         json.dump(ev, f, indent=1, sort_keys=True, default=str)
